@@ -225,14 +225,15 @@ Section Rel.
     Variable om : list vname.
     Variable am : list (string * attrv).
     Variable rn : vname -> vname.
+    Variable ri : vname -> vname.
     Variable ev : env -> graph -> list V -> option (list V).
     (* subgraphs one level down evaluate alike *)
-    Hypothesis Hev : forall g vis m e1 e2 args, inv vis om m e1 e2 -> ok_graph rn om vis m g = true ->
-      ev e1 (omit_graph om am g) args = ev e2 (clone_graph rn am m g) args.
+    Hypothesis Hev : forall g vis m e1 e2 args, inv vis om m e1 e2 -> ok_graph ri rn om vis m g = true ->
+      ev e1 (omit_graph om am g) args = ev e2 (clone_graph ri rn am m g) args.
 
     Lemma eval_node_rel rh vis m e1 e2 n :
-      inv vis om m e1 e2 -> ok_node rh rn om vis m n = true ->
-      match eval_node ev e1 (omit_node om am n), eval_node ev e2 (clone_node rh rn am m n) with
+      inv vis om m e1 e2 -> ok_node ri rh rn om vis m n = true ->
+      match eval_node ev e1 (omit_node om am n), eval_node ev e2 (clone_node ri rh rn am m n) with
       | Some a, Some b => inv (n_outs n ++ vis) om (defmap rh (n_outs n) ++ m) a b
       | None, None => True
       | _, _ => False
@@ -251,15 +252,15 @@ Section Rel.
         destruct (truth c) as [b|]; auto.
         rewrite !find_sub_map.
         destruct (find_sub (if b then "then_branch" else "else_branch")%string subs) as [sg|] eqn:F; cbn; auto.
-        pose proof (find_sub_forallb (fun g => ok_graph rn om vis m g) _ _ _ Ks F) as Kg.
+        pose proof (find_sub_forallb (fun g => ok_graph ri rn om vis m g) _ _ _ Ks F) as Kg.
         rewrite (Hev sg vis m e1 e2 [] I Kg).
-        destruct (ev e2 (clone_graph rn am m sg) []) as [vs|]; auto.
+        destruct (ev e2 (clone_graph ri rn am m sg) []) as [vs|]; auto.
         apply bind_inv; assumption.
       - destruct (is_loop d o).
         + destruct ins as [|m0 [|c carried]]; cbn [map]; auto.
           rewrite !find_sub_map.
           destruct (find_sub "body"%string subs) as [body|] eqn:F; cbn [option_map]; auto.
-          pose proof (find_sub_forallb (fun g => ok_graph rn om vis m g) _ _ _ Ks F) as Kg.
+          pose proof (find_sub_forallb (fun g => ok_graph ri rn om vis m g) _ _ _ Ks F) as Kg.
           assert (S2 : forall x, In x (present [m0; c]) -> In x vis).
           { intros x Hx. apply S. destruct m0, c; cbn in *; tauto. }
           assert (S3 : forall x, In x (present carried) -> In x vis).
@@ -270,13 +271,13 @@ Section Rel.
           destruct (lookups e2 (present (map (clone_in m) carried))) as [st0|]; auto.
           destruct (match mv with Some v => option_map Some (trip v) | None => Some None end) as [mt|]; auto.
           destruct (match cv with Some v => truth v | None => Some true end) as [c0|]; auto.
-          pose proof (loop_iter_rel ev e1 e2 (omit_graph om am body) (clone_graph rn am m body)) as LR.
+          pose proof (loop_iter_rel ev e1 e2 (omit_graph om am body) (clone_graph ri rn am m body)) as LR.
           destruct mt as [k|].
           * rewrite (LR true (fun args => Hev body vis m e1 e2 args I Kg)).
-            destruct (loop_iter ev e2 (clone_graph rn am m body) true k 0 c0 st0); auto.
+            destruct (loop_iter ev e2 (clone_graph ri rn am m body) true k 0 c0 st0); auto.
             apply bind_inv; assumption.
           * rewrite (LR false (fun args => Hev body vis m e1 e2 args I Kg)).
-            destruct (loop_iter ev e2 (clone_graph rn am m body) false limit 0 c0 st0); auto.
+            destruct (loop_iter ev e2 (clone_graph ri rn am m body) false limit 0 c0 st0); auto.
             apply bind_inv; assumption.
         + rewrite (inv_lookup_opts vis om m e1 e2 ins I S).
           destruct (lookup_opts e2 (map (clone_in m) ins)) as [vs|]; auto.
@@ -286,9 +287,9 @@ Section Rel.
 
     Lemma run_rel rh : forall ns vis m e1 e2,
       inv vis om m e1 e2 ->
-      ok_nodes_with (fun vis' m' n' => ok_node rh rn om vis' m' n') rh vis m ns = true ->
+      ok_nodes_with (fun vis' m' n' => ok_node ri rh rn om vis' m' n') rh vis m ns = true ->
       match run ev e1 (map (fun n' => omit_node om am n') ns),
-            run ev e2 (clone_nodes_with (fun m' n' => clone_node rh rn am m' n') rh m ns) with
+            run ev e2 (clone_nodes_with (fun m' n' => clone_node ri rh rn am m' n') rh m ns) with
       | Some a, Some b => inv (vis_after vis ns) om (map_after rh m ns) a b
       | None, None => True
       | _, _ => False
@@ -299,13 +300,13 @@ Section Rel.
       - cbn in K. apply andb_true_iff in K as [K1 K2].
         pose proof (eval_node_rel rh vis m e1 e2 n I K1) as H.
         destruct (eval_node ev e1 (omit_node om am n)) as [a|],
-                 (eval_node ev e2 (clone_node rh rn am m n)) as [b|]; try contradiction; auto.
+                 (eval_node ev e2 (clone_node ri rh rn am m n)) as [b|]; try contradiction; auto.
         apply IH; assumption.
     Qed.
 
     Lemma eval_body_rel g vis m e1 e2 args :
-      inv vis om m e1 e2 -> ok_graph rn om vis m g = true ->
-      eval_body ev e1 (omit_graph om am g) args = eval_body ev e2 (clone_graph rn am m g) args.
+      inv vis om m e1 e2 -> ok_graph ri rn om vis m g = true ->
+      eval_body ev e1 (omit_graph om am g) args = eval_body ev e2 (clone_graph ri rn am m g) args.
     Proof.
       intros I K. destruct g as [ins inits nodes outs]. cbn [omit_graph clone_graph ok_graph] in *.
       apply andb_true_iff in K as [K Kout]. apply andb_true_iff in K as [K Kn].
@@ -313,13 +314,11 @@ Section Rel.
       apply andb_true_iff in K as [Ki Kd].
       destruct inits; [|discriminate]. rewrite app_nil_r.
       unfold Sem.eval_body. cbn [g_ins g_nodes g_outs].
-      assert (Kd' : nodupb (map same ins) = true) by now rewrite map_same.
-      assert (Kimg' : forallb (img_free vis m) (map same ins) = true) by now rewrite map_same.
-      pose proof (bind_inv same vis om m e1 e2 ins args I Kd' Kimg' Kom) as B. rewrite map_same in B.
-      destruct (bind ins args e1) as [a|], (bind ins args e2) as [b|]; try contradiction; auto.
-      pose proof (run_rel rn nodes (ins ++ vis) (defmap same ins ++ m) a b B Kn) as R.
+      pose proof (bind_inv ri vis om m e1 e2 ins args I Kd Kimg Kom) as B.
+      destruct (bind ins args e1) as [a|], (bind (map ri ins) args e2) as [b|]; try contradiction; auto.
+      pose proof (run_rel rn nodes (ins ++ vis) (defmap ri ins ++ m) a b B Kn) as R.
       destruct (run ev a (map (fun n' => omit_node om am n') nodes)) as [a'|],
-               (run ev b (clone_nodes_with (fun m' n' => clone_node rn rn am m' n') rn (defmap same ins ++ m) nodes)) as [b'|];
+               (run ev b (clone_nodes_with (fun m' n' => clone_node ri rn rn am m' n') rn (defmap ri ins ++ m) nodes)) as [b'|];
         try contradiction; auto.
       apply (inv_lookups _ om _ a' b' outs R).
       intros x Hx. rewrite forallb_forall in Kout. specialize (Kout x Hx).
@@ -329,12 +328,12 @@ Section Rel.
   End Level.
 
   (* evaluation commutes with cloning, at every nesting depth *)
-  Theorem eval_graph_rel om am rn : forall fuel g vis m e1 e2 args,
-    inv vis om m e1 e2 -> ok_graph rn om vis m g = true ->
-    eval_graph fuel e1 (omit_graph om am g) args = eval_graph fuel e2 (clone_graph rn am m g) args.
+  Theorem eval_graph_rel om am rn ri : forall fuel g vis m e1 e2 args,
+    inv vis om m e1 e2 -> ok_graph ri rn om vis m g = true ->
+    eval_graph fuel e1 (omit_graph om am g) args = eval_graph fuel e2 (clone_graph ri rn am m g) args.
   Proof.
     induction fuel as [|f IH]; intros g vis m e1 e2 args I K; [reflexivity|].
-    cbn [Sem.eval_graph]. apply (eval_body_rel om am rn (eval_graph f) IH g vis m e1 e2 args I K).
+    cbn [Sem.eval_graph]. apply (eval_body_rel om am rn ri (eval_graph f) IH g vis m e1 e2 args I K).
   Qed.
 
   (* ---------------------------------------------------------------- the call site *)
@@ -428,19 +427,19 @@ Section Rel.
      environment e (None = omitted).  Success: the inlined nodes run, the renamed outputs are bound to the
      results of the call, every other name keeps its value.  Failure of the call: the inlined nodes fail, or
      their outputs are unbound. *)
-  Theorem inline_eq_call : forall fuel f s (e : env) vs,
-    inline_okb f s = true -> lookup_opts e (s_actuals s) = Some vs ->
+  Theorem inline_eq_call_r : forall ri fuel f s (e : env) vs,
+    inline_okb_r ri f s = true -> lookup_opts e (s_actuals s) = Some vs ->
     match call_sem (S fuel) f (s_attrs s) vs with
-    | Some rs => exists e', run (eval_graph fuel) e (inline_nodes f s) = Some e'
-                            /\ lookups e' (inline_outs f s) = Some rs
-                            /\ agree_except (defs_nodes (inline_nodes f s)) e e'
-    | None => match run (eval_graph fuel) e (inline_nodes f s) with
-              | Some e' => lookups e' (inline_outs f s) = None
+    | Some rs => exists e', run (eval_graph fuel) e (inline_nodes_r ri f s) = Some e'
+                            /\ lookups e' (inline_outs_r f s) = Some rs
+                            /\ agree_except (defs_nodes (inline_nodes_r ri f s)) e e'
+    | None => match run (eval_graph fuel) e (inline_nodes_r ri f s) with
+              | Some e' => lookups e' (inline_outs_r f s) = None
               | None => True
               end
     end.
   Proof.
-    intros fuel f s e vs K A. unfold inline_okb in K.
+    intros ri fuel f s e vs K A. unfold inline_okb_r in K.
     apply andb_true_iff in K as [K Kouts]. apply andb_true_iff in K as [K Kbody].
     apply andb_true_iff in K as [K _]. apply andb_true_iff in K as [Kn Klen].
     apply nodupb_NoDup in Kn.
@@ -448,9 +447,9 @@ Section Rel.
     cbn [Sem.eval_graph]. unfold Sem.eval_body, call_graph. cbn [g_ins g_nodes g_outs].
     rewrite bind_fst_snd, app_nil_r. rewrite (omitted_opts e _ _ _ A).
     pose proof (init_inv e (f_ins f) (s_actuals s) vs Kn A) as I.
-    pose proof (run_rel (omitted (f_ins f) (s_actuals s)) (attr_map f (s_attrs s)) (nested_name f s)
-                  (eval_graph fuel) (eval_graph_rel _ _ _ fuel) (final_name f s) (f_body f) _ _ _ _ I Kbody) as R.
-    unfold inline_nodes, inline_outs, site_map in *.
+    pose proof (run_rel (omitted (f_ins f) (s_actuals s)) (attr_map f (s_attrs s)) (nested_name f s) ri
+                  (eval_graph fuel) (eval_graph_rel _ _ _ _ fuel) (final_name f s) (f_body f) _ _ _ _ I Kbody) as R.
+    unfold inline_nodes_r, inline_outs_r, site_map in *.
     match type of R with
     | match ?a with _ => _ end => destruct a as [a1|]
     end;
@@ -465,6 +464,76 @@ Section Rel.
     rewrite L.
     match goal with |- match ?l with _ => _ end => destruct l as [rs|] eqn:El end; [|reflexivity].
     exists b1. repeat split; auto. now apply (agree_run_shape (eval_graph fuel)).
+  Qed.
+
+  (* ---------------------------------------------------------------- missing actuals padded with None *)
+  Lemma lookup_opts_app (e : env) : forall a b va vb,
+    lookup_opts e a = Some va -> lookup_opts e b = Some vb -> lookup_opts e (a ++ b) = Some (va ++ vb).
+  Proof.
+    induction a as [|[x|] t IH]; intros b va vb Ha Hb; cbn in *.
+    - inversion Ha; subst. exact Hb.
+    - destruct (lookup e x); [|discriminate]. destruct (lookup_opts e t) as [r|] eqn:E; [|discriminate].
+      inversion Ha; subst. now rewrite (IH b r vb eq_refl Hb).
+    - destruct (lookup_opts e t) as [r|] eqn:E; [|discriminate]. inversion Ha; subst.
+      now rewrite (IH b r vb eq_refl Hb).
+  Qed.
+
+  Lemma lookup_opts_nones (e : env) : forall k, lookup_opts e (repeat None k) = Some (repeat None k).
+  Proof. induction k as [|k IH]; cbn; [reflexivity|]. now rewrite IH. Qed.
+
+  Lemma omitted_pad : forall A formals (vs : list (option A)) k,
+    omitted formals (vs ++ repeat None k) = omitted formals vs.
+  Proof.
+    induction formals as [|x t IH]; intros vs k; [destruct vs, k; reflexivity|].
+    destruct vs as [|[a|] vt]; cbn.
+    - destruct k as [|k]; cbn; [reflexivity|]. f_equal. apply (IH [] k).
+    - apply IH.
+    - f_equal. apply IH.
+  Qed.
+
+  Lemma bound_formals_pad : forall A formals (vs : list (option A)) k,
+    bound_formals formals (vs ++ repeat None k) = bound_formals formals vs.
+  Proof.
+    induction formals as [|x t IH]; intros vs k; [destruct vs, k; reflexivity|].
+    destruct vs as [|[a|] vt]; cbn.
+    - destruct k as [|k]; cbn; [reflexivity|]. change (repeat None k) with ([] ++ @repeat (option A) None k). rewrite (IH [] k). destruct t; reflexivity.
+    - f_equal. apply IH.
+    - apply IH.
+  Qed.
+
+  Lemma call_sem_pad fuel f attrs vs k : List.length vs + k <= List.length (f_ins f) ->
+    call_sem fuel f attrs (vs ++ repeat None k) = call_sem fuel f attrs vs.
+  Proof.
+    intro H. unfold Inline.call_sem, call_graph. rewrite app_length, repeat_length.
+    replace (Nat.leb (List.length vs + k) (List.length (f_ins f))) with true by (symmetry; apply Nat.leb_le; lia).
+    replace (Nat.leb (List.length vs) (List.length (f_ins f))) with true by (symmetry; apply Nat.leb_le; lia).
+    now rewrite omitted_pad, bound_formals_pad.
+  Qed.
+
+  (* the same for the probed variant c of _inliner.instantiate (subgraph inputs renamed or not, missing
+     actuals padded with None or not) *)
+  Theorem inline_eq_call : forall c fuel f s (e : env) vs,
+    inline_okb c f s = true -> lookup_opts e (s_actuals s) = Some vs ->
+    match call_sem (S fuel) f (s_attrs s) vs with
+    | Some rs => exists e', run (eval_graph fuel) e (inline_nodes c f s) = Some e'
+                            /\ lookups e' (inline_outs c f s) = Some rs
+                            /\ agree_except (defs_nodes (inline_nodes c f s)) e e'
+    | None => match run (eval_graph fuel) e (inline_nodes c f s) with
+              | Some e' => lookups e' (inline_outs c f s) = None
+              | None => True
+              end
+    end.
+  Proof.
+    intros c fuel f s e vs K A. unfold inline_okb in K. apply andb_true_iff in K as [Klen K].
+    apply Nat.leb_le in Klen. unfold inline_nodes, inline_outs.
+    destruct c as [r [|]]; unfold vsite in *; cbn [pad_missing_actuals] in *.
+    - set (k := List.length (f_ins f) - List.length (s_actuals s)) in *.
+      assert (A' : lookup_opts e (pad_actuals f (s_actuals s)) = Some (vs ++ repeat None k)).
+      { unfold pad_actuals. apply lookup_opts_app; [exact A|apply lookup_opts_nones]. }
+      pose proof (inline_eq_call_r (sub_ren (ICfg r true) f s) fuel f _ e _ K A') as T.
+      cbn [s_attrs] in T. rewrite call_sem_pad in T; [exact T|].
+      rewrite (lookup_opts_length e _ _ A). unfold k. lia.
+    - exact (inline_eq_call_r _ fuel f s e vs K A).
   Qed.
 
   Lemma call_sem_length fuel f attrs vs rs :
@@ -497,26 +566,26 @@ Section Rel.
   Definition call_node (f : func) (s : site) (outs : list vname) : node :=
     Node (f_dom f) (f_name f) (s_actuals s) outs (s_attrs s) [].
 
-  Theorem inline_eq_call_node : forall fuel f s (e : env) outs,
+  Theorem inline_eq_call_node : forall c fuel f s (e : env) outs,
     (forall attrs vs, sem (f_dom f) (f_name f) attrs vs = call_sem (S fuel) f attrs vs) ->
     is_if (f_dom f) (f_name f) = false -> is_loop (f_dom f) (f_name f) = false ->
-    inline_okb f s = true -> lookup_opts e (s_actuals s) <> None ->
+    inline_okb c f s = true -> lookup_opts e (s_actuals s) <> None ->
     NoDup outs -> List.length outs = List.length (f_outs f) ->
     match eval_node (eval_graph fuel) e (call_node f s outs) with
-    | Some ec => exists ei, run (eval_graph fuel) e (inline_nodes f s) = Some ei
-                            /\ lookups ei (inline_outs f s) = lookups ec outs
+    | Some ec => exists ei, run (eval_graph fuel) e (inline_nodes c f s) = Some ei
+                            /\ lookups ei (inline_outs c f s) = lookups ec outs
                             /\ lookups ec outs <> None
-                            /\ agree_except (defs_nodes (inline_nodes f s)) e ei
+                            /\ agree_except (defs_nodes (inline_nodes c f s)) e ei
                             /\ agree_except outs e ec
-    | None => match run (eval_graph fuel) e (inline_nodes f s) with
-              | Some ei => lookups ei (inline_outs f s) = None
+    | None => match run (eval_graph fuel) e (inline_nodes c f s) with
+              | Some ei => lookups ei (inline_outs c f s) = None
               | None => True
               end
     end.
   Proof.
-    intros fuel f s e outs Hsem Hif Hloop K A N L.
+    intros c fuel f s e outs Hsem Hif Hloop K A N L.
     destruct (lookup_opts e (s_actuals s)) as [vs|] eqn:Ea; [clear A|congruence].
-    pose proof (inline_eq_call fuel f s e vs K Ea) as T.
+    pose proof (inline_eq_call c fuel f s e vs K Ea) as T.
     unfold call_node, Sem.eval_node. rewrite Hif, Hloop, Ea, Hsem.
     destruct (call_sem (S fuel) f (s_attrs s) vs) as [rs|] eqn:C; [|exact T].
     destruct (bind_lookups outs rs e N) as [ec [B Lk]].
@@ -540,15 +609,15 @@ Section Full.
   Variable of_bool : bool -> V.
   Variable limit : nat.
 
-  Definition inline_eq_call_full : Prop :=
+  Definition inline_eq_call_full (c : icfg) : Prop :=
     forall fuel f s (e : list (vname * V)) vs,
       func_wfb f = true ->
       Nat.leb (List.length (s_actuals s)) (List.length (f_ins f)) = true -> outnames_ok f s = true ->
       lookup_opts e (s_actuals s) = Some vs ->
       match call_sem V sem truth trip of_nat of_bool limit (S fuel) f (s_attrs s) vs with
       | Some rs => exists e', run V sem truth trip of_nat of_bool limit
-                                  (eval_graph V sem truth trip of_nat of_bool limit fuel) e (inline_nodes f s) = Some e'
-                              /\ lookups e' (inline_outs f s) = Some rs
+                                  (eval_graph V sem truth trip of_nat of_bool limit fuel) e (inline_nodes c f s) = Some e'
+                              /\ lookups e' (inline_outs c f s) = Some rs
       | None => True
       end.
 End Full.
@@ -557,25 +626,31 @@ End Full.
    the cloned body is captured by the (un-renamed) body input.  8 = 2 + 3*2, 16 = 2*2*2*2. *)
 Theorem inline_subgraph_input_capture_refuted :
   func_wfb w_loop_fn = true
-  /\ inline_okb w_loop_fn w_capture_site = false /\ inline_okb w_loop_fn w_plain_site = true
+  /\ inline_okb icfg_pinned w_loop_fn w_capture_site = false /\ inline_okb icfg_pinned w_loop_fn w_plain_site = true
   /\ toy_call 3 w_loop_fn [] [Some 2%Z] = Some [8%Z]
-  /\ toy_inline 2 w_loop_fn w_plain_site [("x", 2%Z)] = Some [8%Z]
-  /\ toy_inline 2 w_loop_fn w_capture_site [("acc_0", 2%Z)] = Some [16%Z].
+  /\ toy_inline icfg_pinned 2 w_loop_fn w_plain_site [("x", 2%Z)] = Some [8%Z]
+  /\ toy_inline icfg_pinned 2 w_loop_fn w_capture_site [("acc_0", 2%Z)] = Some [16%Z]
+  (* with the inputs of cloned subgraphs prefixed (proposed fix C18_01) the same site is fine *)
+  /\ inline_okb icfg_fixed w_loop_fn w_capture_site = true
+  /\ toy_inline icfg_fixed 2 w_loop_fn w_capture_site [("acc_0", 2%Z)] = Some [8%Z].
 Proof. vm_compute. repeat split; reflexivity. Qed.
 
 (* fewer actuals than formals: the call omits the trailing input, the inlined node keeps the formal's
    name: dangling (evaluation fails) or captured by a caller value of that name *)
 Theorem inline_fewer_actuals_refuted :
   func_wfb w_opt_fn = true
-  /\ inline_okb w_opt_fn w_fewer_site = false /\ inline_okb w_opt_fn w_none_site = true
+  /\ inline_okb icfg_pinned w_opt_fn w_fewer_site = false /\ inline_okb icfg_pinned w_opt_fn w_none_site = true
   /\ toy_call 2 w_opt_fn [] [Some 1%Z] = Some [1%Z]
-  /\ toy_inline 1 w_opt_fn w_none_site [("x", 1%Z)] = Some [1%Z]
-  /\ toy_inline 1 w_opt_fn w_fewer_site [("x", 1%Z)] = None
-  /\ toy_inline 1 w_opt_fn w_fewer_site [("lo", 5%Z); ("x", 1%Z)] = Some [6%Z].
+  /\ toy_inline icfg_pinned 1 w_opt_fn w_none_site [("x", 1%Z)] = Some [1%Z]
+  /\ toy_inline icfg_pinned 1 w_opt_fn w_fewer_site [("x", 1%Z)] = None
+  /\ toy_inline icfg_pinned 1 w_opt_fn w_fewer_site [("lo", 5%Z); ("x", 1%Z)] = Some [6%Z]
+  (* with the missing actuals mapped to None (proposed fix C18_02) the same site is fine *)
+  /\ inline_okb icfg_fixed w_opt_fn w_fewer_site = true
+  /\ toy_inline icfg_fixed 1 w_opt_fn w_fewer_site [("lo", 5%Z); ("x", 1%Z)] = Some [1%Z].
 Proof. vm_compute. repeat split; reflexivity. Qed.
 
 Theorem inline_eq_call_full_refuted :
-  ~ inline_eq_call_full Z toy_sem toy_truth toy_trip toy_of_nat toy_of_bool 10.
+  ~ inline_eq_call_full Z toy_sem toy_truth toy_trip toy_of_nat toy_of_bool 10 icfg_pinned.
 Proof.
   intro H.
   specialize (H 2 w_loop_fn w_capture_site [("acc_0"%string, 2%Z)] [Some 2%Z] eq_refl eq_refl eq_refl eq_refl).
@@ -585,16 +660,18 @@ Qed.
 (* ------------------------------------------------------------------ non-vacuity *)
 Example ex_inline_hypotheses :
   func_wfb ex_fn = true
-  /\ inline_okb ex_fn ex_site = true /\ inline_okb ex_fn ex_site_default = true
+  /\ inline_okb icfg_pinned ex_fn ex_site = true /\ inline_okb icfg_pinned ex_fn ex_site_default = true
   /\ lookup_opts ex_env (s_actuals ex_site) = Some [Some 4%Z; Some (-4)%Z]
   /\ toy_call 3 ex_fn (s_attrs ex_site) [Some 4%Z; Some (-4)%Z] = Some [5%Z; 10%Z]
-  /\ toy_inline 2 ex_fn ex_site ex_env = Some [5%Z; 10%Z]
+  /\ toy_inline icfg_pinned 2 ex_fn ex_site ex_env = Some [5%Z; 10%Z]
   /\ toy_call 3 ex_fn [] [Some 4%Z; Some (-4)%Z] = Some [1%Z; 2%Z]
-  /\ toy_inline 2 ex_fn ex_site_default ex_env = Some [1%Z; 2%Z]
-  /\ inline_outs ex_fn ex_site = ["v_enc.out"; "v_enc.tmp"]%string
-  /\ inline_outs ex_fn ex_site_default = ["v_exf_node_2/u"; "v_exf_node_2/v_Add_0"]%string
-  /\ inline_fresh ex_fn ex_site (map fst ex_env) = true
-  /\ inline_fresh ex_fn ex_site_default (map fst ex_env) = false.
+  /\ toy_inline icfg_pinned 2 ex_fn ex_site_default ex_env = Some [1%Z; 2%Z]
+  /\ inline_outs icfg_pinned ex_fn ex_site = ["v_enc.out"; "v_enc.tmp"]%string
+  /\ inline_outs icfg_pinned ex_fn ex_site_default = ["v_exf_node_2/u"; "v_exf_node_2/v_Add_0"]%string
+  /\ inline_fresh icfg_pinned ex_fn ex_site (map fst ex_env) = true
+  /\ inline_fresh icfg_pinned ex_fn ex_site_default (map fst ex_env) = false
+  /\ inline_okb icfg_fixed ex_fn ex_site = true /\ inline_okb icfg_fixed ex_fn ex_site_default = true
+  /\ toy_inline icfg_fixed 2 ex_fn ex_site ex_env = Some [5%Z; 10%Z].
 Proof. vm_compute. repeat split; reflexivity. Qed.
 
 (* ------------------------------------------------------------------ the generated names *)
